@@ -115,6 +115,7 @@ func loadWorld(repo string, useVTA bool) (*World, error) {
 		return nil, fmt.Errorf("grammar: %w", err)
 	}
 	w.G4 = g
+	theWorld = w
 	return w, nil
 }
 
